@@ -318,7 +318,7 @@ func TestC07Exhaustive(t *testing.T) {
 			return
 		}
 		done++
-		if (index/shards)%8 == 0 {
+		if (index/shards)%16 == 0 {
 			twin := ExhCase{Index: index, Merged: true}
 			var st2 exhStats
 			f2 := propExhaustive(twin, &st2)
